@@ -259,4 +259,65 @@ theorem definition_roundtrip (hI : IntRoundTrip) (hV : FValRoundTrip) (d : LDef)
   simp only [hcond, Bool.false_eq_true, if_false]
   rw [← hdate]
 
+/-! ### non-vacuity: a concrete definition inside the regime, and its round trip computed outright -/
+
+def exEnc : Encoding :=
+  .num { isFloat := false, size := 8, encoding := "unsigned", byteOrder := "mostSignificantByteFirst",
+         cals := { default := none, contexts := [] } }
+
+def exType : LPType := { tag := "IntegerParameterType", name := "U8_T", unit := some "counts", enc := exEnc }
+
+def exRoot : LContainer :=
+  { name := "ROOT", entries := [.param "APID"], shortDesc := some "", longDesc := none, base := none, criteria := [],
+    abstract := true, inheritors := ["CHILD"] }
+
+def exChild : LContainer :=
+  { name := "CHILD", entries := [.param "X", .cont "ROOT"], shortDesc := none, longDesc := some "child packet",
+    base := some "ROOT",
+    criteria := [.comparison { requiredValue := "1", ref := "APID", op := "==", useCal := true }],
+    abstract := false, inheritors := [] }
+
+def exDef : LDef :=
+  { ptypes := [("U8_T", exType)],
+    params := [("APID", { name := "APID", typeName := "U8_T", shortDesc := none, longDesc := none }),
+               ("X", { name := "X", typeName := "U8_T", shortDesc := some "x", longDesc := some "an x" })],
+    containers := [("ROOT", exRoot), ("CHILD", exChild)],
+    root := "ROOT", date := some "2024-01-01T00:00:00", spaceSystemName := some "SYS",
+    nsPrefix := some "xtce", nsmap := [(some "xtce", "http://www.omg.org/spec/XTCE/20180204")] }
+
+theorem exDef_wf : DefWF exDef where
+  ns := Or.inr (by decide)
+  ssn := by decide
+  typeKeys := by intro kv h; simp [exDef] at h; subst h; rfl
+  typesUnique := by simp [UniqueKeys, exDef]
+  typesWF := by
+    intro kv h; simp [exDef] at h; subst h
+    left
+    exact { tag := by decide, unit := by decide,
+            enc := by
+              show CalibsWF _ ∧ _
+              exact ⟨⟨fun d h => (by cases h), fun x h => (by cases h)⟩, fun h => (by cases h)⟩,
+            strOk := fun h => absurd h (by decide), binOk := fun h => absurd h (by decide),
+            noEnum := rfl, noEpoch := rfl, noOffset := rfl }
+  paramKeys := by intro kv h; simp [exDef] at h; rcases h with rfl | rfl <;> rfl
+  paramsUnique := by simp [UniqueKeys, exDef]
+  paramsWF := by intro kv h; simp [exDef] at h; rcases h with rfl | rfl <;> simp [ParamWF]
+  paramTypes := by intro kv h; simp [exDef] at h; rcases h with rfl | rfl <;> rfl
+  sorted := by
+    refine ⟨rfl, ⟨by decide, Or.inl ⟨rfl, rfl⟩, ?_⟩, rfl, rfl, ⟨by decide, Or.inr ⟨"ROOT", rfl, by decide, rfl, Or.inr ?_⟩, ?_⟩,
+      rfl, trivial⟩
+    · intro e he; simp [exDef, exRoot] at he; subst he; rfl
+    · exact Or.inl ⟨[{ requiredValue := "1", ref := "APID", op := "==", useCal := true }], rfl, by simp,
+        by intro c hc; simp at hc; subst hc; rfl⟩
+    · intro e he; simp [exDef, exChild] at he; rcases he with rfl | rfl <;> rfl
+  inheritors := by intro kv h; simp [exDef] at h; rcases h with rfl | rfl <;> rfl
+  normal := by rfl
+
+/-- The round trip of the example, computed by the kernel (no hypotheses about number printing needed here). -/
+example : (toXml exDef).toOption.bind (fun x =>
+    (loadXtce { nsPrefix := exDef.nsPrefix, nsmap := exDef.nsmap } exDef.root x).toOption.map
+      (fun d' => d'.containers.map (fun kv => (kv.1, kv.2.inheritors, kv.2.base))))
+    = some [("ROOT", ["CHILD"], none), ("CHILD", [], some "ROOT")] := by decide +kernel
+
+
 end Spp.C09
